@@ -633,7 +633,14 @@ static void apply_defect(struct sim *s, struct exchange *ex, struct plist *l, co
 			nv = BIG[rndn(&s->rng, 6)];
 		else {
 			do {
-				nv = rndp(&s->rng, 1, 2) ? cur + 1 + rndn(&s->rng, 16) : (cur > 9 ? cur - 1 - rndn(&s->rng, cur - 9) : cur + 4);
+				if (rndp(&s->rng, 1, 4)) {
+					/* up to the largest PDU the protocol allows: whatever the client echoes in its report must
+					 * still fit into a PDU of that size */
+					nv = RTR_MAX_PDU_LEN - rndn(&s->rng, 80);
+					CNT("sim/defect/len-type-near-maximum");
+				} else {
+					nv = rndp(&s->rng, 1, 2) ? cur + 1 + rndn(&s->rng, 16) : (cur > 9 ? cur - 1 - rndn(&s->rng, cur - 9) : cur + 4);
+				}
 			} while (nv == cur || nv < 8 || nv > RTR_MAX_PDU_LEN);
 			/* an EOD whose length matches the other version's format is the EOD-format defect, still a defect */
 		}
